@@ -90,6 +90,7 @@ def ops_for(size):
     for p in sorted({0, 1, size, size + 1}):
         o.append(("seek", p))
     o += [("seek", 1, 1), ("seek", -1, 1), ("seek", 0, 2), ("seek", -1, 2), ("seek", 1, 2)]
+    o.append(("peer",))       # a second ArFile object over the same file reads this member in full
     return o
 
 
@@ -110,6 +111,7 @@ class Run(object):
                 os.close(fd)
                 self.tmp = path
             self.under = None
+            self.path = path
             try:
                 self.ar = ArFile(filename=path)
             except Exception:
@@ -173,6 +175,26 @@ class Run(object):
             self.under.seek(upos if upos >= 0 else len(self.raw))
         m, r = self.ms[mi], self.refs[mi]
         name = op[0]
+        if name == "peer":
+            from debian.arfile import ArFile
+            try:
+                if self.under is not None:
+                    self.under.seek(0)
+                    peer = ArFile(fileobj=self.under)
+                else:
+                    peer = ArFile(filename=self.path)
+                pm = peer.getmembers()[mi]
+                got = pm.read()
+                pm.close()
+            except Exception as e:
+                return ("ar/peer/raises", "a second archive object reads the member", "%s: %s" % (type(e).__name__, e))
+            if got != self.members[mi][1]:
+                return ("ar/peer/result", self.members[mi][1], got)
+            cur = [x.tell() for x in self.ms]
+            rcur = [x.tell() for x in self.refs]
+            if cur != rcur:
+                return ("ar/peer/isolation", rcur, cur)
+            return None
         try:
             if name == "seek":
                 m.seek(*op[1:])
